@@ -20,7 +20,9 @@ var ErrVerifNotaryRecorded = errors.New("verif: notary invocation recorded")
 // client (no web socket, no subscriptions) for the verification harness, which
 // points it to an in-process fake RPC server. Every NotarySignAndInvokeTX call is
 // reported to onNotary (through the alphabet key source, the first thing the
-// method consults) and then fails with ErrVerifNotaryRecorded.
+// method consults) and then fails with ErrVerifNotaryRecorded. With a nil onNotary the client
+// has no notary support at all: contract invocations are then made directly through the RPC
+// actor (test run first), so the fake server sees the called method and its arguments.
 func VerifNewClient(rpc *rpcclient.Client, acc *wallet.Account, onNotary func()) (*Client, error) {
 	act, err := actor.NewSimple(rpc, acc)
 	if err != nil {
@@ -33,12 +35,14 @@ func VerifNewClient(rpc *rpcclient.Client, acc *wallet.Account, onNotary func())
 		acc:       acc,
 		accAddr:   acc.ScriptHash(),
 		closeChan: make(chan struct{}),
-		notary: &notaryInfo{
+	}
+	if onNotary != nil {
+		c.notary = &notaryInfo{
 			alphabetSource: func() (keys.PublicKeys, error) {
 				onNotary()
 				return nil, ErrVerifNotaryRecorded
 			},
-		},
+		}
 	}
 	c.conn.Store(&connection{client: ws, rpcActor: act, rpcProxyActor: act})
 	return c, nil
